@@ -946,6 +946,12 @@ def _process_step_result_tick(
                 requirements=result.requirements,
                 has_requirements=bool(len(result.requirements)),
                 resolved_event=None,
+                # the replay continues this invocation (see _replay_attempt)
+                attempts=this_execution.attempts,
+                first_attempt_at=this_execution.first_attempt_at,
+                last_exception=this_execution.last_exception,
+                last_failed_at=this_execution.last_failed_at,
+                recovery_counts=dict(this_execution.recovery_counts),
             )
             if existing is not None:
                 worker_state.collected_waiters[existing] = new_waiter
@@ -1001,6 +1007,22 @@ def _process_step_result_tick(
             commands.extend(subcommands)
 
     return state, commands
+
+
+def _replay_attempt(waiter: StepWorkerWaiter) -> EventAttempt:
+    """
+    The attempt that replays a step suspended in ctx.wait_for_event. It continues the
+    suspended invocation: retry counters and the recovery counts of its lineage are
+    those the invocation had when it added the waiter, not those of a fresh event.
+    """
+    return EventAttempt(
+        event=waiter.event,
+        attempts=waiter.attempts,
+        first_attempt_at=waiter.first_attempt_at,
+        last_exception=waiter.last_exception,
+        last_failed_at=waiter.last_failed_at,
+        recovery_counts=dict(waiter.recovery_counts),
+    )
 
 
 def _add_or_enqueue_event(
@@ -1099,7 +1121,7 @@ def _process_add_event_tick(
                 waiter_resolved_steps.add(step_name)
                 wait_condition.resolved_event = tick.event
                 subcommands = _add_or_enqueue_event(
-                    EventAttempt(event=wait_condition.event),
+                    _replay_attempt(wait_condition),
                     step_name,
                     state.workers[step_name],
                     now_seconds,
@@ -1212,7 +1234,7 @@ def _process_waiter_timeout_tick(
         return state, commands
     waiter.timed_out = True
     subcommands = _add_or_enqueue_event(
-        EventAttempt(event=waiter.event),
+        _replay_attempt(waiter),
         tick.step_name,
         worker_state,
         now_seconds,
